@@ -15,8 +15,9 @@ import progs
 import events
 import specdiff
 
-THEOREM_MODULES = ["Yarel.Props.C06"]
-REQUIRED_THEOREMS = ["open_sorted", "capture_shares", "close_exact", "refines_cells", "refines_cells_run"]
+THEOREM_MODULES = ["Yarel.Props.C06", "Yarel.Props.SpecScoping"]
+REQUIRED_THEOREMS = ["resolveLocal_is_innermost_preceding", "pushLocal_fresh", "makeClosure_captures_cells", "write_then_read_shared",
+                     "write_does_not_disturb_other", "truncateEnv_keeps_cells", "open_sorted", "capture_shares", "close_exact", "refines_cells", "refines_cells_run"]
 LEVEL = "proof"
 ASSUMPTIONS = [
     "mechanism model Yarel/Model/Upvalues.lean transcribes capture_upvalue/close_upvalues (tie: replay of real capture/close events)",
